@@ -29,7 +29,10 @@ ASSUME = [
     "content is representable in the chosen encoding and free of CR (documented limitation)",
 ]
 
-ENCODINGS = ["utf-8", "UTF-8", "utf-16", "UTF-16", "iso-8859-1", "ISO-8859-1", "ascii", "ASCII", "Utf-8", "us-ascii", "latin1"]
+ENCODINGS = ["utf-8", "UTF-8", "utf-16", "UTF-16", "iso-8859-1", "ISO-8859-1", "ascii", "ASCII", "Utf-8", "us-ascii", "latin1",
+             # multi-byte legacy encodings whose registered names differ from Python's codec names (euc_jp, iso2022_jp):
+             # the declaration must carry a name a reader knows (seeded C12-9); content from the ASCII repertoire
+             "euc-jp", "EUC-KR", "iso-2022-jp", "shift_jis", "windows-1252"]
 NEWLINES = [None, None, "", "\n", "\r\n", "\r"]
 
 WORDS = {
@@ -45,6 +48,8 @@ def charset_of(enc):
         return "ascii"
     if name == "iso8859-1":
         return "latin"
+    if not name.startswith("utf"):
+        return "ascii"
     return "uni"
 
 
@@ -493,7 +498,9 @@ def run_cases(run: Run, cases, stream, lean_ok=True):
         creqs, idx = [], []
         for i, (c, res) in enumerate(rows):
             if "bytes" in res and "text" in models[i][0]:
-                label = CODEC_LABEL[codecs.lookup(c["encoding"]).name]
+                label = CODEC_LABEL.get(codecs.lookup(c["encoding"]).name)
+                if label is None:  # a codec the Lean byte-level model does not cover: compared with Python's codec only
+                    continue
                 creqs.append({"cmd": "encode", "codec": label, "newline": c["newline"], "linesep": os.linesep, "text": models[i][0]["text"]})
                 creqs.append({"cmd": "decode", "codec": label, "bytes": list(res["bytes"])})
                 idx.append(i)
